@@ -40,10 +40,12 @@ const (
 	c05Attr
 	c05NLRI
 	c05Cap
+	c05SweepNLRI
+	c05SweepAttr
 	numC05Entries
 )
 
-var c05EntryNames = [...]string{"message", "body", "attribute", "nlri", "capability"}
+var c05EntryNames = [...]string{"message", "body", "attribute", "nlri", "capability", "sweep-nlri", "sweep-attribute"}
 
 func drawC05(t *rapid.T) c05Case {
 	c := c05Case{Entry: rapid.IntRange(0, numC05Entries-1).Draw(t, "entry")}
@@ -239,6 +241,63 @@ func runC05(c c05Case, st *verifkit.Stats) *verifkit.Failure {
 	}
 
 	switch entry {
+	case c05SweepNLRI:
+		// systematic truncation of a valid NLRI: every cut point, with each of the first octets
+		// rewritten as a length field that matches the cut (TLV-style families)
+		f := verifgen.Pick(s, verifgen.AllFamilies)
+		nb, err := verifgen.NLRI(s, f).Serialize(o)
+		if err != nil || len(nb) == 0 {
+			return nil
+		}
+		for k := 0; k <= len(nb); k++ {
+			if fl := c05CheckNLRI(f, nb[:k], o, st); fl != nil {
+				return fl
+			}
+			for p := 0; p < 4 && p < k; p++ {
+				v := append([]byte{}, nb[:k]...)
+				v[p] = byte(k - p - 1)
+				if fl := c05CheckNLRI(f, v, o, st); fl != nil {
+					return fl
+				}
+				if p+1 < k { // two-octet length
+					v2 := append([]byte{}, nb[:k]...)
+					binary.BigEndian.PutUint16(v2[p:], uint16(k-p-2))
+					if fl := c05CheckNLRI(f, v2, o, st); fl != nil {
+						return fl
+					}
+				}
+			}
+		}
+		return nil
+	case c05SweepAttr:
+		ab, err := verifgen.Attr(s, s.Intn(verifgen.NumAttrKinds)).Serialize(o)
+		if err != nil || len(ab) < 3 {
+			return nil
+		}
+		hdr := 3
+		if ab[0]&0x10 != 0 {
+			hdr = 4
+		}
+		for k := hdr; k <= len(ab); k++ {
+			v := append([]byte{}, ab[:k]...)
+			if hdr == 3 {
+				v[2] = byte(k - 3)
+			} else {
+				binary.BigEndian.PutUint16(v[2:4], uint16(k-4))
+			}
+			if fl := c05CheckAttr(v, o, st); fl != nil {
+				return fl
+			}
+			// inner length octets rewritten too (sub-TLVs)
+			for p := hdr; p < hdr+6 && p < k; p++ {
+				v2 := append([]byte{}, v...)
+				v2[p] = byte(k - p - 1)
+				if fl := c05CheckAttr(v2, o, st); fl != nil {
+					return fl
+				}
+			}
+		}
+		return nil
 	case c05Message, c05Body:
 		return c05CheckMessage(in, o, entry, st)
 	case c05Attr:
